@@ -61,8 +61,17 @@ ToneInfo _get_psd_tone(const dsplib::arr_real& spec, real_t tone_freq) {
     freq_num = max(freq_num, 0);
 
     const int ipeak = _locate_peak(spec, freq_num);
-    const int lpos = _left_descent(spec, ipeak);
-    const int rpos = _right_descent(spec, ipeak);
+    //a tone midway between two bins has two equal top bins: start the descents at both ends of that plateau
+    int ltop = ipeak;
+    while ((ltop > 0) && (spec[ltop - 1] == spec[ipeak])) {
+        --ltop;
+    }
+    int rtop = ipeak;
+    while ((rtop < n - 1) && (spec[rtop + 1] == spec[ipeak])) {
+        ++rtop;
+    }
+    const int lpos = _left_descent(spec, ltop);
+    const int rpos = _right_descent(spec, rtop);
 
     const arr_real f_fund = arange(lpos, rpos + 1) / n;
     const arr_real s_fund = spec.slice(lpos, rpos + 1);
